@@ -226,17 +226,21 @@ impl Request {
     ) -> Result<Option<()>, crate::Response> {
         use crate::Response;
 
-        let received = match stream.read(&mut *self.__buf__).await {
-            Ok (0) => return Ok(None),
-            Ok (n) => n,
-            Err(e) => return match e.kind() {
-                std::io::ErrorKind::ConnectionReset => Ok(None),
-                _ => Err((|err| {
-                    crate::warning!("Failed to read stream: {err}");
-                    Response::InternalServerError()
-                })(e))
-            },
-        };
+        // the head may arrive in several segments: read until its end is in the buffer
+        let mut received = 0;
+        while received < BUF_SIZE && !self.__buf__[..received].windows(4).any(|w| w == b"\r\n\r\n") {
+            match stream.read(&mut self.__buf__[received..]).await {
+                Ok (0) => if received == 0 {return Ok(None)} else {break},
+                Ok (n) => received += n,
+                Err(e) => return match e.kind() {
+                    std::io::ErrorKind::ConnectionReset => Ok(None),
+                    _ => Err((|err| {
+                        crate::warning!("Failed to read stream: {err}");
+                        Response::InternalServerError()
+                    })(e))
+                },
+            }
+        }
 
         let mut r = Reader::new(unsafe {
             // pass detouched bytes
